@@ -9,7 +9,7 @@ static ALLOC: CountingAlloc = CountingAlloc;
 
 #[allow(warnings)]
 pub mod mstsc {
-    include!("/repo/src/bin/mstsc-rs.rs");
+    include!(env!("VERIF_MSTSC_SRC"));
 
     pub fn blit(buffer: &mut Vec<u32>, width: usize, bitmap: BitmapEvent) -> RdpResult<()> {
         fast_bitmap_transfer(buffer, width, bitmap)
